@@ -77,7 +77,7 @@ def make_line(c, kind, i):
     return c.text(c.regstr("foreign%d" % i, "[a-z]{1,8}=[ -~]*")), None
 
 
-@harness("C09", "keylog.file_text", functions=[KR + ".get_keys_from_string"],
+@harness(["C09", "C18"], "keylog.file_text", functions=[KR + ".get_keys_from_string"],
          cases=[(kinds, eol) for kinds in [("key",), ("comment", "key"), ("key", "blank", "key"), ("foreign", "key", "comment"),
                                            ("key", "key", "key"), ("blank",), ("comment", "foreign")] for eol in ("\n", "\r\n")])
 def h_text(c, kinds, eol):
